@@ -308,7 +308,30 @@ fn main() {
             .iter()
             .map(|(starts, gset)| {
                 let gs = gset.clone();
-                ProblemInfo { start: starts.first().cloned(), goal_sat: Box::new(move |s: &LState| gs.contains(&s.0)) }
+                // exact reachability through valid points by unit lattice steps
+                let feas = match starts.first() {
+                    None => 2u8,
+                    Some(st) => {
+                        let mut seen: HashSet<i64> = HashSet::new();
+                        let mut stack = vec![st.0];
+                        seen.insert(st.0);
+                        while let Some(a) = stack.pop() {
+                            for b in 0..p.topo.npoints() {
+                                if p.topo.d(a, b) == 1 && p.valid.contains(&b) && seen.insert(b) {
+                                    stack.push(b);
+                                }
+                            }
+                        }
+                        if gset.iter().any(|g| seen.contains(g) && (p.valid.contains(g))) {
+                            1
+                        } else if p.lvs > 1 {
+                            2 // a wall thinner than the resolution may legitimately be missed
+                        } else {
+                            0
+                        }
+                    }
+                };
+                ProblemInfo { start: starts.first().cloned(), goal_sat: Box::new(move |s: &LState| gs.contains(&s.0)), feas }
             })
             .collect();
         let geom = LatGeom { topo: p.topo, lvs: p.lvs, valid: p.valid.clone() };
